@@ -745,7 +745,7 @@ def run(ck, pid, mr):
                         write_case(ck, bt, L, rnd(rng, n), pid, rng)
                     bt.flush()
         if pid == 'C02':
-            npairs = 150 if quick else 800
+            npairs = 150 if quick else 2500
             grid = [0, 1, 40, 253, 254, 255, 256, 300]
             for i in range(npairs):
                 longish = kind != 't1s' and i % 4 != 3
